@@ -1,5 +1,6 @@
 import MiniMcmcVerif.Model.Util
 import MiniMcmcVerif.Driver.C09
+import MiniMcmcVerif.Driver.C05
 
 open MiniMcmcVerif MiniMcmcVerif.Driver
 
@@ -7,6 +8,7 @@ def dispatch (line : String) : String :=
   match words line with
   | [] => ""
   | "c09" :: args => c09 args
+  | "c05" :: args => c05 args
   | _ => "bad-op"
 
 partial def loop (h : IO.FS.Stream) (out : IO.FS.Stream) : IO Unit := do
